@@ -28,6 +28,7 @@ _reader = {}
 def _reader_loop(rfd, wfd):
     import gc
     gc.disable()      # never finalise objects inherited from the parent (e.g. its sqlite connections)
+    os.chdir(pool.scratch_base())      # a working directory that outlives every scenario
     rf = os.fdopen(rfd, 'rb')
     wf = os.fdopen(wfd, 'wb')
     while True:
@@ -118,7 +119,7 @@ def extra(S, cfg, hist, op, res):
         bad('open-raises', 'copy()', 'copy() raised %r' % (e,))
     # (c) serialised handle
     fam = BACKENDS[backend][0]
-    if fam in ('file', 'dir'):
+    if fam in ('file', 'dir') and backend not in archmc.RELNAME:
         import dill
         cwd = os.getcwd()
         for name, mod in (('dill', dill), ('pickle', pickle)):
@@ -129,6 +130,39 @@ def extra(S, cfg, hist, op, res):
                 bad('open-raises', name, '%s round trip of the handle raised %r' % (name, e))
             finally:
                 os.chdir(cwd)
+    # (c') stores opened by a relative name: the process moves to another working directory; the live handle, a copy,
+    # an unpickled handle and a handle rebuilt from .state must all still address the store that was opened
+    if backend in archmc.RELNAME:
+        import dill
+        cwd = os.getcwd()
+        other = os.path.join(S.root, 'elsewhere')
+        os.makedirs(other, exist_ok=True)
+        os.chdir(other)
+        try:
+            res['counts']['fresh_reads'] += 1
+            for p in compare_contents(contents(a), S.m, 'seen through the same handle after chdir, after %s' % (e2._opr(op),)):
+                bad('fresh-reader-differs', 'same-handle-after-chdir', p)
+            try:
+                readers.append(('copy() after chdir', a.copy()))
+            except Exception as e:
+                bad('open-raises', 'copy() after chdir', 'copy() raised %r' % (e,))
+            if fam in ('file', 'dir'):
+                try:
+                    readers.append(('dill round trip after chdir', dill.loads(dill.dumps(a))))
+                except Exception as e:
+                    bad('open-raises', 'dill after chdir', 'dill round trip raised %r' % (e,))
+            try:
+                arch = getattr(a, 'archive', a)
+                st = dict(arch.state)
+                if fam == 'sql':
+                    readers.append(('rebuilt from .state after chdir', type(arch)(database=st['root'], table=st['id'])))
+                else:
+                    ident = st.pop('id')
+                    readers.append(('rebuilt from .state after chdir', type(arch)(ident, **st)))
+            except Exception as e:
+                bad('open-raises', 'rebuilt from .state', 'type(a)(id, **state) raised %r' % (e,))
+        finally:
+            os.chdir(cwd)
     for name, h in readers:
         res['counts']['fresh_reads'] += 1
         c = contents(h)
